@@ -334,6 +334,11 @@ impl<'a> G<'a> {
                         let a = vars[vars.len() - 1 - self.rng.below(3)];
                         let b = vars[vars.len() - 1 - self.rng.below(3)];
                         (E::Var(a), Some(Box::new(E::Var(b))))
+                    } else if vars.len() >= 2 && self.rng.pct(20) {
+                        // a difference compared with zero (not the same as comparing the operands
+                        // when the subtraction wraps)
+                        let (a, b) = (*self.rng.pick(&vars), *self.rng.pick(&vars));
+                        (E::Op(Box::new(E::Var(a)), Op::Sub, Box::new(E::Var(b))), None)
                     } else {
                         let c = self.pure(&T::I, sc, depth + 1);
                         (c, if self.rng.pct(50) { Some(Box::new(self.pure(&T::I, sc, depth + 1))) } else { None })
@@ -1245,6 +1250,20 @@ fn show(e: &E, names: &dyn Fn(usize) -> String, sigs: &[DefSig], ind: usize) -> 
         E::If(sort, c, snd, a, b) => {
             let ops = ["==", "!=", "<", "<=", ">", ">="];
             let ct = s(c);
+            // an operation as first operand is written without its own parentheses half of the time
+            // (`if a - b < 0`): the comparison then has the operation itself as operand, not a
+            // parenthesised term
+            let simple = |e: &E| matches!(e, E::Var(_)) || matches!(e, E::Lit(v) if *v >= 0);
+            let bare_op = matches!(&**c, E::Op(x, _, y) if simple(x) && simple(y) && !matches!(**y, E::Lit(0))) && ct.starts_with('(') && ct.ends_with(')') && ct.bytes().map(|b| b as usize).sum::<usize>() % 2 == 0;
+            if bare_op {
+                let inner = &ct[1..ct.len() - 1];
+                let ops = ["==", "!=", "<", "<=", ">", ">="];
+                let rhs = match snd {
+                    Some(x) => format!("({})", s(x)),
+                    None => "0".to_string(),
+                };
+                return format!("(if {inner} {} {rhs} {{\n{pad}  {}\n{pad}}} else {{\n{pad}  {}\n{pad}}})", ops[*sort], s(a), s(b));
+            }
             let cond = match snd {
                 Some(x) => format!("({ct}) {} ({})", ops[*sort], s(x)),
                 // comparison with zero: the sugar exists with the zero on either side; which
@@ -1305,6 +1324,18 @@ pub fn generate(rng: &mut Rng, cfg: &FunCfg) -> FunProg {
     let pool = [T::D("List".into(), vec![T::I]), T::D("Pair".into(), vec![T::I, T::I]), T::D("Opt".into(), vec![T::I]), T::D("Color".into(), vec![])];
     for _ in 1..cfg.type_instances {
         let t = pool[g.rng.below(pool.len())].clone();
+        g.elems.push(t);
+    }
+    // rarely an instance whose printed name is longer than a line of the pretty printer
+    if cfg.type_instances > 1 && g.rng.pct(4) {
+        let mut t = T::D("Opt".into(), vec![T::I]);
+        while t.show().len() <= 104 {
+            t = match g.rng.below(3) {
+                0 => T::D("Pair".into(), vec![t.clone(), T::D("List".into(), vec![t])]),
+                1 => T::D("Pair".into(), vec![T::D("Res".into(), vec![T::I]), t]),
+                _ => T::D("List".into(), vec![T::D("Pair".into(), vec![t, T::D("Opt".into(), vec![T::I])])]),
+            };
+        }
         g.elems.push(t);
     }
     // sometimes nested instances and codata inside data (List[Fun[i64, i64]], Pair[List[i64], Opt[..]])
@@ -1390,6 +1421,13 @@ pub fn generate(rng: &mut Rng, cfg: &FunCfg) -> FunProg {
         bodies.push((di, b));
     }
     bodies.sort_by_key(|(i, _)| *i);
+    // a third of the programs start main with a print of a literal (see the printer below)
+    if g.rng.pct(33) {
+        let k = g.rng.range(0, 99);
+        let nl = g.rng.pct(50);
+        let old = std::mem::replace(&mut bodies[0].1, E::Lit(0));
+        bodies[0].1 = E::Print(nl, Box::new(E::Lit(k)), Box::new(old));
+    }
     // naming
     let mut unique = Namer { names: BTreeMap::new(), recent: Vec::new() };
     let mut shad = Namer { names: BTreeMap::new(), recent: Vec::new() };
@@ -1432,6 +1470,16 @@ pub fn generate(rng: &mut Rng, cfg: &FunCfg) -> FunProg {
             desh.names.insert(*id, n);
         }
         deshadow(b, &shad, &mut desh, &mut visible);
+        let comments = {
+            let mut mk = |rng: &mut Rng| -> String {
+                if !rng.pct(20) {
+                    return String::new();
+                }
+                let eol = *rng.pick(&["\n", "\r\n", "\r", "\n"]);
+                format!("// note {} on {}{eol}", rng.below(100), sig.name)
+            };
+            (mk(g.rng), mk(g.rng))
+        };
         for (nm, text) in [(&unique, &mut text_u), (&shad, &mut text_s), (&desh, &mut text_d)] {
             let names = |i: usize| nm.names.get(&i).cloned().unwrap_or_else(|| format!("v{i}"));
             let ps: Vec<String> = sig
@@ -1439,7 +1487,18 @@ pub fn generate(rng: &mut Rng, cfg: &FunCfg) -> FunProg {
                 .iter()
                 .map(|(id, t, cv)| if *cv { format!("{} :cns {}", names(*id), t.show()) } else { format!("{}: {}", names(*id), t.show()) })
                 .collect();
-            text.push_str(&format!("\ndef {}({}): {} {{\n  {}\n}}\n", sig.name, ps.join(", "), sig.ret.show(), show(b, &names, &sigs, 1)));
+            // comments, ended by LF, CR LF or a lone CR (all three end a line for the lexer)
+            let (c1, c2) = (&comments.0, &comments.1);
+            // a leading print of a literal is written as a line of its own, without parentheses,
+            // directly behind the comment: a lexer that lets the comment run on would swallow a
+            // complete statement and leave a program that still parses
+            let body_text = match b {
+                E::Print(nl, a, next) if matches!(**a, E::Lit(v) if v >= 0) => {
+                    format!("{}({});\n  {}", if *nl { "println_i64" } else { "print_i64" }, show(a, &names, &sigs, 1), show(next, &names, &sigs, 1))
+                }
+                _ => show(b, &names, &sigs, 1),
+            };
+            text.push_str(&format!("\n{c1}def {}({}): {} {{\n  {c2}{body_text}\n}}\n", sig.name, ps.join(", "), sig.ret.show()));
         }
     }
     let args: Vec<i64> = (0..cfg.n_args)
